@@ -2,10 +2,14 @@
 EXTENDS Chain, Json
 (* Bounded configurations of Chain.tla and the behaviour generator for direction A. *)
 PoolNoneVal == <<>>
+Pool2 == {100, 102}
+PoolVal2 == (100 :> 3 @@ 102 :> 2)
 Pool3 == {100, 101, 102}
 PoolVal3 == (100 :> 3 @@ 101 :> 3 @@ 102 :> 2)
 Pool5 == {100, 101, 102, 103, 104}
 PoolVal5 == (100 :> 3 @@ 101 :> 3 @@ 102 :> 2 @@ 103 :> 1 @@ 104 :> 4)
+
+CONSTANT SimProfile   \* "mixed" | "flags" | "locks" | "plain": bias of the simulation-only minting
 
 VARIABLE hist      \* observation only: the delivered steps with the projection after each
 mcvars == <<tree, n, ndel, last, hist>>
@@ -14,6 +18,60 @@ Unspent(nd) == {[c |-> nd.u.outs[i].c, h |-> nd.u.outs[i].h] : i \in nd.u.unspen
 Proj(nd) == [head |-> nd.head, hhead |-> nd.hhead, unspent |-> Unspent(nd), nleaves |-> Len(nd.u.outs),
              orph |-> nd.orph, hdrs |-> nd.hdrs, bodies |-> nd.bodies,
              bestsums |-> {b \in nd.sums : IsAnc(b, nd.head)}]
+
+\* Simulation-only minting: one random well-formed block per step (RandomElement), biased towards
+\* empty and unflagged blocks so that a good share of every tree is valid.
+BalancedTxs(id, h) == {t \in TxChoices(h) \ {NoTx} :
+                         /\ t.ins \cap t.outs = {} /\ id \notin t.ins
+                         /\ SumVal(t.ins) = SumVal(t.outs) + Fee}
+\* (random draws are bound with \E over a singleton so that each is evaluated exactly once)
+MintSim ==
+  LET id == Cardinality(Ids) IN
+  \E vb \in {{b \in Ids : Valid(b)}} :
+  \E rp \in {RandomElement(1..10)} :
+  \E p \in {IF rp <= 2 THEN RandomElement(Ids)                                    \* mostly extend the latest valid block
+             ELSE IF rp <= 4 THEN RandomElement(vb)
+             ELSE CHOOSE b \in vb : \A x \in vb : x <= b} :
+  \E d \in {RandomElement(Diffs)} :
+  \E f0 \in {IF Flags # {} /\ RandomElement(1..6) <= (IF SimProfile = "flags" THEN 3 ELSE 1) THEN RandomElement(Flags) ELSE "ok"} :
+  \E r \in {RandomElement(1..10)} :
+  \E bt \in {BalancedTxs(id, Height(p) + 1)} :
+  \E u \in {IF Valid(p) THEN Replay(p) ELSE GenesisU} :
+  \E live \in {{u.outs[i].c : i \in u.unspent}} :
+  \E mature \in {{u.outs[i].c : i \in {j \in u.unspent : ~u.outs[j].cb \/ u.outs[j].h + Maturity <= Height(p) + 1}}} :
+  \E good \in {{t \in bt : t.ins \subseteq mature /\ t.outs \cap live = {} /\ t.lock <= Height(p) + 1}} :
+  \E edge \in {{t \in bt : (\A c \in t.ins : c < 100) \/ t.lock # 0}} :
+  \E t \in {IF SimProfile = "locks"
+             THEN (IF r <= 2 \/ bt = {} THEN NoTx
+                   ELSE IF r <= 5 /\ good # {} THEN RandomElement(good)
+                   ELSE IF edge # {} THEN RandomElement(edge) ELSE RandomElement(bt))
+             ELSE (IF r <= 3 \/ bt = {} THEN NoTx
+                   ELSE IF r <= 8 /\ good # {} THEN RandomElement(good)
+                   ELSE RandomElement(bt))} :
+         Mint(p, d, IF f0 # "ok" THEN NoTx ELSE t, f0)
+\* one random delivery per step, biased towards blocks whose body is not stored yet and whose
+\* parent header is known
+DeliverSim ==
+  LET fresh == {b \in Ids \ {0} : b \notin n.bodies}
+      ready == {b \in fresh : Parent(b) \in n.hdrs}
+      ready2 == {b \in fresh : Parent(b) \in n.bodies}
+      hpend == {b \in Ids \ {0} : HeaderChainOK(b) /\ b \notin n.hdrs}
+  IN IF HeadersFirst /\ ~HeadersDone
+     THEN DeliverHeader(CHOOSE b \in hpend : \A x \in hpend : b <= x)
+     ELSE
+     \E r \in {RandomElement(1..10)} :
+     \E b \in {IF r <= 4 /\ ready2 # {} THEN RandomElement(ready2)
+                ELSE IF r <= 6 /\ ready # {} THEN RandomElement(ready)
+                ELSE IF r <= 8 /\ fresh # {} THEN RandomElement(fresh)
+                ELSE RandomElement(Ids \ {0})} :
+     \E hb \in {RandomElement(1..4)} :
+        IF hb = 1 /\ ~HeadersFirst THEN DeliverHeader(b) ELSE DeliverBlock(b)
+SimNext == \/ MintSim
+           \/ (AllMinted /\ DeliverSim)
+           \/ (\E r \in {RandomElement(1..6)} : r = 1 /\ Reopen)
+MCSimSpec == Init /\ hist = <<>> /\ [][SimNext /\ hist' = IF last'.k \in {"ProcessHeader", "ProcessBlock", "Reopen"}
+                     THEN Append(hist, [k |-> last'.k, b |-> last'.b, res |-> last'.res, proj |-> Proj(n')])
+                     ELSE hist]_mcvars
 
 MCInit == Init /\ hist = <<>>
 MCNext == /\ Next
@@ -25,7 +83,7 @@ MCSpec == MCInit /\ [][MCNext]_mcvars
 View == <<tree, n, ndel>>
 
 Done == AllMinted /\ ndel = MaxDeliveries
-Behaviour == [trunk |-> Trunk, tree |-> [b \in Ids |-> tree[b]], steps |-> hist,
+Behaviour == [trunk |-> Trunk, pool |-> [c \in Pool |-> PoolVal[c]], tree |-> [b \in Ids |-> tree[b]], steps |-> hist,
               valid |-> ValidIds, works |-> [b \in Ids |-> Work(b)]]
 Emit == Done => PrintT(<<"CHAINBEH", ToJson(Behaviour)>>)
 
